@@ -341,6 +341,9 @@ class Fam:
             t += '#include "%s"\n' % nm
         for j in p["inh"]:
             t += 'inherit "/%s";\n' % self.obj(j)
+        for g in range(p.get("grow", 0)):
+            # an edit that changes what heirs see: one more global variable and one more public function
+            t += "int grown%d_g = %d;\nint grown%d_f (string s) { return %d + strlen (s); }\n" % (g, 7000 + g, g, 7100 + g)
         for f in p["fns"]:
             if "pre" in f:
                 t += f["pre"].replace("@K@", str(p["k"])) + "\n"
@@ -506,6 +509,20 @@ def sys_case(rng, cid, steps=None, nprog=None, big=False, script=None, mode=None
                 fam.incs[nm]["k"] += 1
                 L.append("file /%s %s" % (fam.inc_path(nm), hx(fam.inc_text(nm))))
                 L.append("mtime /%s %d" % (fam.inc_path(nm), t))
+        elif act == "parent-noreload" and len(fam.progs) > 1:
+            # a parent is edited so that its variables and functions shift, but stays loaded as it was; programs above
+            # it are compiled again (against the old parent in memory) and saved; the following full reload compiles the
+            # parent from its new source
+            i = rng.range(1, len(fam.progs) - 1) if which is None else which
+            fam.progs[i]["grow"] = fam.progs[i].get("grow", 0) + 1
+            L.append("file /%s %s" % (fam.path(i), hx(fam.text(i))))
+            L.append("mtime /%s %d" % (fam.path(i), t))
+            keep = rng.range(1, i)
+            t += 10
+            L.append("now %d" % t)
+            L.append("intern " + " ".join(hx(n) for n in rng.shuffle(names)))
+            L.append("reload " + " ".join(objs[:keep]))
+            t += 10
         elif act == "restart":
             L.append("restart " + " ".join(objs))
         reload()
